@@ -148,6 +148,12 @@ func c03Run(env world.Env, files []c03File, extraGauge bool, reg3 bool) mc.CaseR
 // raiseWindow: governance raises the ProofWindow parameter (3 -> 10) after the files were posted; each file keeps the
 // proof window it was posted with, so nothing about the reward block under test may change.
 func c03RunOpt(env world.Env, files []c03File, extraGauge bool, reg3 bool, raiseWindow bool) mc.CaseResult {
+	return c03RunOpt2(env, files, extraGauge, reg3, raiseWindow, false)
+}
+
+// atomGauge: a further gauge holding 8 uatom over 8 days, so that a reward block releases a second denomination of
+// which a prover's share may well truncate to zero while its ujkl share is positive.
+func c03RunOpt2(env world.Env, files []c03File, extraGauge bool, reg3 bool, raiseWindow bool, atomGauge bool) mc.CaseResult {
 	w := env.W()
 	cr := mc.CaseResult{Class: "reward-block"}
 	u := w.A("U").Bech
@@ -161,6 +167,20 @@ func c03RunOpt(env world.Env, files []c03File, extraGauge bool, reg3 bool, raise
 	if extraGauge {
 		u2 := w.A("U2").Bech
 		mustOK(env.Deliver(storagetypes.NewMsgBuyStorage(u2, u2, 60, 500_000_000_000, "ujkl")), "BuyStorage2")
+	}
+	if atomGauge {
+		env.Mutate(func(ctx sdk.Context) {
+			k := w.App.StorageKeeper
+			coins := sdk.NewCoins(sdk.NewInt64Coin("uatom", 8))
+			pg := k.NewGauge(ctx, coins, ctx.BlockTime().Add(8*day))
+			acc, err := storagetypes.GetGaugeAccount(pg)
+			if err != nil {
+				panic(err)
+			}
+			if err := w.App.BankKeeper.SendCoins(ctx, w.A("U").Addr, acc, coins); err != nil {
+				panic(err)
+			}
+		})
 	}
 	starts := make([]int64, len(files))
 	post := func(i int) {
@@ -366,6 +386,9 @@ func c03Enum(thorough bool) mc.Enum {
 							e.Cases = append(e.Cases, mc.Case{Desc: fmt.Sprintf("one|%s|size=%d|extraGauge=%v|reg3=%v|raiseWindow", failDesc(l, fail), size, extra, reg3), Run: func(env world.Env) mc.CaseResult {
 								return c03RunOpt(env, []c03File{{f: bySize[size], size: size, list: l, fail: fail}}, extra, reg3, true)
 							}})
+							e.Cases = append(e.Cases, mc.Case{Desc: fmt.Sprintf("one|%s|size=%d|extraGauge=%v|reg3=%v|atomGauge", failDesc(l, fail), size, extra, reg3), Run: func(env world.Env) mc.CaseResult {
+								return c03RunOpt2(env, []c03File{{f: bySize[size], size: size, list: l, fail: fail}}, extra, reg3, false, true)
+							}})
 						}
 					}
 				}
@@ -408,6 +431,9 @@ func c03Enum(thorough bool) mc.Enum {
 					la, fa, lb, fb := la, fa, lb, fb
 					e.Cases = append(e.Cases, mc.Case{Desc: fmt.Sprintf("two|%s|%s", failDesc(la, fa), failDesc(lb, fb)), Run: func(env world.Env) mc.CaseResult {
 						return c03Run(env, []c03File{{f: bySize[7], size: 7, list: la, fail: fa}, {f: fB, size: 1000, list: lb, fail: fb}}, true, true)
+					}})
+					e.Cases = append(e.Cases, mc.Case{Desc: fmt.Sprintf("two|%s|%s|atomGauge", failDesc(la, fa), failDesc(lb, fb)), Run: func(env world.Env) mc.CaseResult {
+						return c03RunOpt2(env, []c03File{{f: bySize[7], size: 7, list: la, fail: fa}, {f: fB, size: 1000, list: lb, fail: fb}}, true, true, false, true)
 					}})
 				}
 			}
